@@ -139,6 +139,7 @@ func init() {
 		Jobs: func(tier string) []mc.Job {
 			jobs := []mc.Job{
 				{Name: "c08-multi-remove", Run: c08Multi},
+				{Name: "c08-builtins", Run: c08Builtins},
 				{Name: "c08-n1", Run: func(r *mc.Report) { c08Enumerate(r, 1, lifeAssignments(1), 0, 1) }},
 				{Name: "c08-n2", Run: func(r *mc.Report) { c08Enumerate(r, 2, lifeAssignments(2), 0, 1) }},
 			}
@@ -289,3 +290,101 @@ func c08Multi(r *mc.Report) {
 }
 
 func godiNewCollection() godi.Collection { return godi.NewCollection() }
+
+// ---- dependencies on the built-in injectables, with and without a key
+//
+// Context, Scope and Provider are injected only when requested WITHOUT a key; the same
+// types under a key (or as a group) are ordinary identities nobody can register. Every
+// dependent lifetime x form {In struct, void initializer} x built-in x {plain, keyed,
+// keyed optional, group} x one or two such fields: the model decides "missing"; a Build
+// that succeeds must leave nothing unresolvable.
+
+type c08BuiltinCase struct {
+	Life string    `json:"life"`
+	Kind string    `json:"kind"`
+	Deps []kit.Dep `json:"deps"`
+}
+
+func c08Builtins(r *mc.Report) {
+	run := func(c c08BuiltinCase) {
+		r0 := kit.Reg{ID: 0, Life: c.Life, Kind: c.Kind, In: true, Deps: c.Deps}
+		if c.Kind == "" {
+			r0.Outs = []kit.Out{{T: "P0"}}
+		}
+		spec := kit.Spec{Regs: []kit.Reg{r0, {ID: 1, Life: "scoped", Outs: []kit.Out{{T: "P1"}}}}}
+		m := NewModel(&spec)
+		var e *Env
+		s := seqOnce(func() {
+			e = NewEnv(&spec)
+			e.Build()
+			if e.Prov != nil {
+				e.Do(Op{Kind: "scope", Bind: "s1"})
+				e.Do(Op{Kind: "get", Scope: "s1", T: "P0"})
+				e.Do(Op{Kind: "scope", Scope: "s1", Bind: "s2"})
+				e.Do(Op{Kind: "get", Scope: "s2", T: "P0"})
+				e.Do(Op{Kind: "get", Scope: "", T: "P0"})
+				e.Do(Op{Kind: "close", Scope: ""})
+			}
+		})
+		r.Executions++
+		r.Validated++
+		r.States++
+		r.Transitions += int64(len(e.Results) + 1)
+		verdict := m.Verdict()
+		r.Outcome(fmt.Sprintf("builtin deps: model=%s build=%s", verdict, kit.ClassOf(e.BuildErr)))
+		var fs []Finding
+		if e.BuildPanic != nil {
+			fs = append(fs, Finding{feat("clause", "build-panic"), fmt.Sprint(e.BuildPanic)})
+		}
+		if verdict == "ok" && e.BuildErr != nil {
+			fs = append(fs, Finding{feat("clause", "valid-set-rejected", "edge-forms", "builtin", "class", kit.ClassOf(e.BuildErr)),
+				"Build failed on a set whose only dependencies are built-in injectables / optional: " + firstLine(e.BuildErr.Error())})
+		}
+		for _, rr := range e.Results {
+			if rr.Skipped || c.Kind != "" && rr.Op.Kind == "get" {
+				continue // an initializer has no identity to resolve; scope creation runs it
+			}
+			if rr.Panic != nil {
+				fs = append(fs, Finding{feat("clause", "panic", "op", rr.Op.Kind), fmt.Sprintf("%s panicked: %v", rr.Op, rr.Panic)})
+			} else if rr.Err != nil && strings.Contains(rr.Class, "notfound") && (rr.Op.Kind == "get" || rr.Op.Kind == "scope") {
+				fs = append(fs, Finding{feat("clause", "notfound-after-build", "op", rr.Op.Kind, "edge-forms", "keyed-builtin"),
+					fmt.Sprintf("Build succeeded, yet %s fails with 'service not found': %v", rr.Op, firstLine(rr.Err.Error()))})
+			} else if verdict == "ok" && rr.Err != nil && (rr.Op.Kind == "get" || rr.Op.Kind == "scope") {
+				fs = append(fs, Finding{feat("clause", "valid-set-unresolvable", "op", rr.Op.Kind, "class", rr.Class, "edge-forms", "builtin"),
+					fmt.Sprintf("valid set built, yet %s failed: %v", rr.Op, firstLine(rr.Err.Error()))})
+			}
+		}
+		fs = append(fs, genericFindings(nil, s)...)
+		for _, f := range fs {
+			r.Violate(f.F, f.Detail+fmt.Sprintf("\n  dependent: %s %s with dependencies %+v", c.Life, map[string]string{"": "constructor", "void": "initializer", "voiderr": "error-only initializer"}[c.Kind], c.Deps), c)
+		}
+		if len(r.Samples) < 2 {
+			r.Sample(map[string]any{"case": c, "model": verdict, "build": kit.ClassOf(e.BuildErr)})
+		}
+	}
+	if r.Only != nil {
+		var c c08BuiltinCase
+		if json.Unmarshal(r.Only, &c) == nil && c.Life != "" {
+			run(c)
+		}
+		return
+	}
+	var one []kit.Dep
+	for _, t := range []string{"ctx", "scope", "provider"} {
+		one = append(one, kit.Dep{T: t}, kit.Dep{T: t, Key: "k"}, kit.Dep{T: t, Key: "k", Opt: true}, kit.Dep{T: t, Opt: true}, kit.Dep{T: t, Group: "g"})
+	}
+	for _, life := range []string{"singleton", "scoped", "transient"} {
+		for _, kind := range []string{"", "void", "voiderr"} {
+			if kind != "" && life == "transient" {
+				continue
+			}
+			for i, a := range one {
+				run(c08BuiltinCase{Life: life, Kind: kind, Deps: []kit.Dep{a}})
+				for _, b := range one[i+1:] {
+					run(c08BuiltinCase{Life: life, Kind: kind, Deps: []kit.Dep{a, b}})
+					run(c08BuiltinCase{Life: life, Kind: kind, Deps: []kit.Dep{b, {T: "P1", Opt: true}, a}})
+				}
+			}
+		}
+	}
+}
